@@ -96,7 +96,7 @@ Section WithValidate.
   | YSign (m : msg request) (ov : option N) (* ANY message is handed to the signer *)
   | YRespond (m : msg response)             (* ANY message is handed to the proxy *)
   | YChild (c k : N) (r : creq)             (* a child calls in (ta_slow_rfc6492_request) *)
-  | YAddChild (c : N).
+  | YAddChild (c id : N).
 
   Definition sys_step (y : sys) (o : sysop) : sys :=
     match o with
@@ -121,7 +121,7 @@ Section WithValidate.
         | _ => y
         end
     | YChild c k r => mkSys (snd (child_call validate (y_p y) c k r)) (y_s y) (y_reqs y) (y_resps y) (y_nonces y)
-    | YAddChild c => mkSys (p_after validate (y_p y) (PAddChild c)) (y_s y) (y_reqs y) (y_resps y) (y_nonces y)
+    | YAddChild c id => mkSys (p_after validate (y_p y) (PAddChild c id)) (y_s y) (y_reqs y) (y_resps y) (y_nonces y)
     end.
 
   (** What the environment cannot do: present a message carrying an intact signature of the proxy
@@ -149,7 +149,7 @@ Section WithValidate.
   Inductive hop :=
   | HMake (n : N)
   | HChild (c k : N) (r : creq)
-  | HAddChild (c : N)
+  | HAddChild (c id : N)
   | HExchange (ov : option N)               (* fetch the current request, sign it, hand the answer back *)
   | HRespond (m : msg response).            (* any message: replayed, stale, forged, cross-wired *)
 
@@ -157,7 +157,7 @@ Section WithValidate.
     match h with
     | HMake n => [YMake n]
     | HChild c k r => [YChild c k r]
-    | HAddChild c => [YAddChild c]
+    | HAddChild c id => [YAddChild c id]
     | HRespond m => [YRespond m]
     | HExchange ov =>
         match p_get_request (y_p y) with
@@ -175,7 +175,7 @@ Section WithValidate.
     match h with
     | HMake n => ~ In n (y_nonces y)
     | HChild c k r => owner k = c
-    | HAddChild _ => True
+    | HAddChild _ _ => True
     | HExchange ov => forall n, ov = Some n -> o_num (s_objs (y_s y)) < n
     | HRespond m => m_by m = s_id (y_s y) -> m_intact m = true -> In m (y_resps y)
     end.
